@@ -1224,3 +1224,273 @@ Proof.
 Qed.
 
 End Top.
+
+(* ------------------------------------------------------------------------------------------ *)
+(** * 11. Semi-stable and stage semantics *)
+
+Lemma rmax_sst e F l : enc_base e = BCo -> (rmax e F l <-> sst F l).
+Proof. intros He. unfold rmax, sst. rewrite He. reflexivity. Qed.
+Lemma rmax_stg e F l : enc_base e = BCf -> (rmax e F l <-> stg F l).
+Proof. intros He. unfold rmax, stg. rewrite He. reflexivity. Qed.
+
+Lemma co_cfs F S : co F S -> cfs F S.
+Proof. intros [[Hi [Hc _]] _]. now split. Qed.
+
+(* the answer of an acceptance query against a family P of extensions: the certificate is an
+   extension that meets (credulous) / avoids (skeptical) the list, and the status is right *)
+Definition accept_ok (P : list nat -> Prop) (la : list nat) (cred : bool)
+           (r : bool * option (list nat)) : Prop :=
+  (fst r = true <->
+   if cred then exists S, P S /\ exists a, In a la /\ In a S
+   else forall S, P S -> exists a, In a la /\ In a S) /\
+  match snd r with
+  | Some ce => fst r = cred /\ P ce /\ meets la ce = cred
+  | None => fst r = negb cred
+  end.
+
+Lemma rg_post_accept e F la cred r (P : list nat -> Prop) :
+  (forall l, rmax e F l <-> P l) -> rg_post e F la cred r -> accept_ok P la cred r.
+Proof.
+  intros HP. destruct r as [b [ce|]]; cbn [rg_post accept_ok fst snd]; unfold wit.
+  - intros [-> [Hm Hw]]. apply HP in Hm. split; [|now repeat split]. destruct cred.
+    + split; [intros _|reflexivity]. exists ce. split; [exact Hm|]. now apply meets_spec.
+    + split; [discriminate|]. intros H. destruct (H ce Hm) as [a [Ha Hin]].
+      assert (Hx : meets la ce = true) by (apply meets_spec; now exists a). congruence.
+  - intros [-> Hno]. split; [|reflexivity]. destruct cred; cbn [negb].
+    + split; [discriminate|]. intros [S [HS Hex]]. exfalso. apply (Hno S); [now apply HP|].
+      now apply meets_spec.
+    + split; [intros _|reflexivity]. intros S HS. apply meets_spec.
+      destruct (meets la S) eqn:E; [reflexivity|]. exfalso. apply (Hno S); [now apply HP|exact E].
+Qed.
+
+Section SemiStableStage.
+Variable oracle : nat -> cnf -> list lit -> answer.
+Variable thr : nat.
+Hypothesis Hthr : 1 <= thr.
+Hypothesis Hvalid : valid_oracle oracle.
+Variable e : enc.
+Variable c : comp.
+Variable n : nat.
+Hypothesis HF : compact_af (c_af c) n.
+Notation F := (c_af c).
+(* proved elsewhere (grounded fix-point): the start of every growth chain is a complete extension *)
+Hypothesis Hgr : co F (grounded (view_of_af F)).
+
+(* ---------- T1: single extension ---------- *)
+Theorem se_sst_component : enc_base e = BCo -> forall fuel s,
+  match rg_max_in_cc oracle thr fuel e c s with
+  | Done L _ => exists l, L = lift c l /\ sst F l
+  | Panic _ => False
+  | _ => True
+  end.
+Proof.
+  intros He fuel s.
+  assert (He' : enc_base e <> BSt) by (rewrite He; discriminate).
+  assert (Hgr' : basep (enc_base e) F (grounded (view_of_af F))) by (rewrite He; exact Hgr).
+  pose proof (rg_max_in_cc_spec oracle thr Hthr Hvalid e He' F n HF Hgr' False fuel c s eq_refl
+                ltac:(intros [])) as H.
+  destruct (rg_max_in_cc oracle thr fuel e c s) as [L s'|s'|s'|s']; try exact I; [|exact H].
+  destruct H as [[l [HL Hl]] _]. exists l. split; [exact HL|]. now apply (rmax_sst e F l He).
+Qed.
+
+Theorem se_stg_component : enc_base e = BCf -> forall fuel s,
+  match rg_max_in_cc oracle thr fuel e c s with
+  | Done L _ => exists l, L = lift c l /\ stg F l
+  | Panic _ => False
+  | _ => True
+  end.
+Proof.
+  intros He fuel s.
+  assert (He' : enc_base e <> BSt) by (rewrite He; discriminate).
+  assert (Hgr' : basep (enc_base e) F (grounded (view_of_af F))) by (rewrite He; exact (co_cfs _ _ Hgr)).
+  pose proof (rg_max_in_cc_spec oracle thr Hthr Hvalid e He' F n HF Hgr' False fuel c s eq_refl
+                ltac:(intros [])) as H.
+  destruct (rg_max_in_cc oracle thr fuel e c s) as [L s'|s'|s'|s']; try exact I; [|exact H].
+  destruct H as [[l [HL Hl]] _]. exists l. split; [exact HL|]. now apply (rmax_stg e F l He).
+Qed.
+
+(* ---------- T2: credulous (cred = true) / skeptical (cred = false) acceptance ---------- *)
+Theorem accept_sst_component : enc_base e = BCo -> forall fuel al la cred s,
+  locals c al = Some la -> (forall a, In a la -> a < n) ->
+  match rg_in_cc oracle thr fuel e c al cred s with
+  | Done r _ => accept_ok (sst F) la cred r
+  | Panic _ => False
+  | _ => True
+  end.
+Proof.
+  intros He fuel al la cred s Hloc Hla.
+  assert (He' : enc_base e <> BSt) by (rewrite He; discriminate).
+  assert (Hgr' : basep (enc_base e) F (grounded (view_of_af F))) by (rewrite He; exact Hgr).
+  pose proof (rg_in_cc_spec oracle thr Hthr Hvalid e He' F n HF Hgr' False fuel c al la cred s eq_refl
+                Hloc Hla ltac:(intros [])) as H.
+  destruct (rg_in_cc oracle thr fuel e c al cred s) as [r s'|s'|s'|s']; try exact I; [|exact H].
+  destruct H as [H _]. exact (rg_post_accept e F la cred r (sst F) (fun l => rmax_sst e F l He) H).
+Qed.
+
+Theorem accept_stg_component : enc_base e = BCf -> forall fuel al la cred s,
+  locals c al = Some la -> (forall a, In a la -> a < n) ->
+  match rg_in_cc oracle thr fuel e c al cred s with
+  | Done r _ => accept_ok (stg F) la cred r
+  | Panic _ => False
+  | _ => True
+  end.
+Proof.
+  intros He fuel al la cred s Hloc Hla.
+  assert (He' : enc_base e <> BSt) by (rewrite He; discriminate).
+  assert (Hgr' : basep (enc_base e) F (grounded (view_of_af F))) by (rewrite He; exact (co_cfs _ _ Hgr)).
+  pose proof (rg_in_cc_spec oracle thr Hthr Hvalid e He' F n HF Hgr' False fuel c al la cred s eq_refl
+                Hloc Hla ltac:(intros [])) as H.
+  destruct (rg_in_cc oracle thr fuel e c al cred s) as [r s'|s'|s'|s']; try exact I; [|exact H].
+  destruct H as [H _]. exact (rg_post_accept e F la cred r (stg F) (fun l => rmax_stg e F l He) H).
+Qed.
+
+(* the same in the vocabulary of Spec/AF.v *)
+Corollary accept_sst_component_status : enc_base e = BCo -> forall fuel al la s,
+  locals c al = Some la -> (forall a, In a la -> a < n) ->
+  match rg_in_cc oracle thr fuel e c al true s with
+  | Done (b, _) _ => b = true <-> cred SST F la | _ => True end /\
+  match rg_in_cc oracle thr fuel e c al false s with
+  | Done (b, _) _ => b = true <-> skep SST F la | _ => True end.
+Proof.
+  intros He fuel al la s Hloc Hla. split.
+  - pose proof (accept_sst_component He fuel al la true s Hloc Hla) as H.
+    destruct (rg_in_cc oracle thr fuel e c al true s) as [[b ce] s'|s'|s'|s']; try exact I.
+    destruct H as [H _]. exact H.
+  - pose proof (accept_sst_component He fuel al la false s Hloc Hla) as H.
+    destruct (rg_in_cc oracle thr fuel e c al false s) as [[b ce] s'|s'|s'|s']; try exact I.
+    destruct H as [H _]. exact H.
+Qed.
+Corollary accept_stg_component_status : enc_base e = BCf -> forall fuel al la s,
+  locals c al = Some la -> (forall a, In a la -> a < n) ->
+  match rg_in_cc oracle thr fuel e c al true s with
+  | Done (b, _) _ => b = true <-> cred STG F la | _ => True end /\
+  match rg_in_cc oracle thr fuel e c al false s with
+  | Done (b, _) _ => b = true <-> skep STG F la | _ => True end.
+Proof.
+  intros He fuel al la s Hloc Hla. split.
+  - pose proof (accept_stg_component He fuel al la true s Hloc Hla) as H.
+    destruct (rg_in_cc oracle thr fuel e c al true s) as [[b ce] s'|s'|s'|s']; try exact I.
+    destruct H as [H _]. exact H.
+  - pose proof (accept_stg_component He fuel al la false s Hloc Hla) as H.
+    destruct (rg_in_cc oracle thr fuel e c al false s) as [[b ce] s'|s'|s'|s']; try exact I.
+    destruct H as [H _]. exact H.
+Qed.
+
+(* ---------- T3: number of SAT calls and sufficiency of the fuel (C18) ---------- *)
+Definition range_bound : nat := (n + 2) * length (all_base (enc_base e) F) + 3.
+
+Theorem range_se_calls : (enc_base e = BCo \/ enc_base e = BCf) -> forall fuel s,
+  match rg_max_in_cc oracle thr fuel e c s with
+  | Done _ s' | Abort s' | OutOfFuel s' => calls s' <= calls s + range_bound
+  | Panic _ => False
+  end /\
+  (2 * range_bound + 4 <= fuel ->
+   match rg_max_in_cc oracle thr fuel e c s with OutOfFuel _ => False | _ => True end).
+Proof.
+  intros He fuel s.
+  assert (He' : enc_base e <> BSt) by (destruct He as [He|He]; rewrite He; discriminate).
+  assert (Hgr' : basep (enc_base e) F (grounded (view_of_af F))).
+  { destruct He as [He|He]; rewrite He; [exact Hgr|exact (co_cfs _ _ Hgr)]. }
+  split.
+  - pose proof (rg_max_in_cc_spec oracle thr Hthr Hvalid e He' F n HF Hgr' False fuel c s eq_refl
+                  ltac:(intros [])) as H.
+    destruct (rg_max_in_cc oracle thr fuel e c s); tauto.
+  - intros Hfuel.
+    pose proof (rg_max_in_cc_spec oracle thr Hthr Hvalid e He' F n HF Hgr' True fuel c s eq_refl
+                  (fun _ => Hfuel)) as H.
+    destruct (rg_max_in_cc oracle thr fuel e c s); tauto.
+Qed.
+
+Theorem range_accept_calls : (enc_base e = BCo \/ enc_base e = BCf) -> forall fuel al la cred s,
+  locals c al = Some la -> (forall a, In a la -> a < n) ->
+  match rg_in_cc oracle thr fuel e c al cred s with
+  | Done _ s' | Abort s' | OutOfFuel s' => calls s' <= calls s + range_bound
+  | Panic _ => False
+  end /\
+  (2 * range_bound + 4 <= fuel ->
+   match rg_in_cc oracle thr fuel e c al cred s with OutOfFuel _ => False | _ => True end).
+Proof.
+  intros He fuel al la cred s Hloc Hla.
+  assert (He' : enc_base e <> BSt) by (destruct He as [He|He]; rewrite He; discriminate).
+  assert (Hgr' : basep (enc_base e) F (grounded (view_of_af F))).
+  { destruct He as [He|He]; rewrite He; [exact Hgr|exact (co_cfs _ _ Hgr)]. }
+  split.
+  - pose proof (rg_in_cc_spec oracle thr Hthr Hvalid e He' F n HF Hgr' False fuel c al la cred s eq_refl
+                  Hloc Hla ltac:(intros [])) as H.
+    destruct (rg_in_cc oracle thr fuel e c al cred s); tauto.
+  - intros Hfuel.
+    pose proof (rg_in_cc_spec oracle thr Hthr Hvalid e He' F n HF Hgr' True fuel c al la cred s eq_refl
+                  Hloc Hla (fun _ => Hfuel)) as H.
+    destruct (rg_in_cc oracle thr fuel e c al cred s); tauto.
+Qed.
+
+(* the local ids of listed arguments are below the size of a well-formed component *)
+Lemma locals_below al la : length (c_ids c) = n -> locals c al = Some la -> forall a, In a la -> a < n.
+Proof. intros Hlen Hloc a Ha. rewrite <- Hlen. exact (locals_lt c al la Hloc a Ha). Qed.
+
+End SemiStableStage.
+
+(* ------------------------------------------------------------------------------------------ *)
+(** * 12. Examples: the hypotheses are satisfiable; runs with a brute-force oracle *)
+
+Definition ex_cycle : af := compact 3 [(0, 1); (1, 2); (2, 0)].              (* no stable extension *)
+Definition ex_diamond : af := compact 4 [(0, 1); (1, 0); (0, 2); (1, 2); (2, 3)].
+Definition ex_selfatt : af := compact 3 [(0, 0); (1, 2); (2, 1)].
+Definition ex_comp (F : af) : comp := {| c_ids := args F; c_af := F |}.
+
+Example ex_hypotheses :
+  compact_af ex_cycle 3 /\ co ex_cycle (grounded (view_of_af ex_cycle)) /\
+  valid_oracle (fun _ _ _ => Unknown) /\ locals (ex_comp ex_cycle) [2; 0] = Some [2; 0] /\
+  enc_base ExpCo = BCo /\ enc_base AuxCf = BCf.
+Proof.
+  split; [|split; [|split; [|split; [|split]]]]; try reflexivity.
+  - split; [reflexivity|]. intros a b H. cbn in H.
+    destruct H as [H|[H|[H|[]]]]; inversion H; lia.
+  - apply cob_co. vm_compute. reflexivity.
+  - intros i C a. exact I.
+Qed.
+
+(* a reference oracle by enumeration (illustration only: the theorems hold for every valid oracle) *)
+Definition bf_oracle : nat -> cnf -> list lit -> answer := fun _ C a =>
+  let f := C ++ units a in
+  match all_models (cnf_max f) f with m :: _ => Sat m | [] => Unsat end.
+
+Definition ex_se (e : enc) (F : af) : bool :=
+  match rg_max_in_cc bf_oracle 3 100 e (ex_comp F) (init_st CadicalLike) with
+  | Done l s =>
+      (match enc_base e with BCo => sstb F l | _ => stgb F l end)
+      && Nat.leb (calls s) ((length (args F) + 2) * length (all_base (enc_base e) F) + 3)
+  | _ => false
+  end.
+Definition ex_acc (e : enc) (F : af) (la : list nat) (cr : bool) : bool :=
+  let sm := match enc_base e with BCo => SST | _ => STG end in
+  match rg_in_cc bf_oracle 3 100 e (ex_comp F) la cr (init_st CadicalLike) with
+  | Done (b, ce) s =>
+      Bool.eqb b (if cr then credb sm F la else skepb sm F la)
+      && (match ce with Some x => extb sm F x && Bool.eqb (meets la x) cr | None => Bool.eqb b (negb cr) end)
+      && Nat.leb (calls s) ((length (args F) + 2) * length (all_base (enc_base e) F) + 3)
+  | _ => false
+  end.
+
+Example ex_se_runs :
+  forallb (fun e => ex_se e ex_cycle && ex_se e ex_selfatt) [ExpCo; HybCo; ExpCf; AuxCo; AuxCf]
+  && forallb (fun e => ex_se e ex_diamond) [ExpCo; HybCo; ExpCf] = true.
+Proof. vm_compute. reflexivity. Qed.
+
+Example ex_acc_runs :
+  forallb (fun e => ex_acc e ex_cycle [0] true && ex_acc e ex_cycle [1; 2] false) [ExpCo; ExpCf]
+  && forallb (fun e => ex_acc e ex_diamond [2] true && ex_acc e ex_diamond [3] false
+                       && ex_acc e ex_diamond [0] false) [ExpCo; HybCo] = true.
+Proof. vm_compute. reflexivity. Qed.
+
+(* ------------------------------------------------------------------------------------------ *)
+Print Assumptions rg_max_in_cc_spec.
+Print Assumptions rg_in_cc_spec.
+Print Assumptions se_sst_component.
+Print Assumptions se_stg_component.
+Print Assumptions accept_sst_component.
+Print Assumptions accept_stg_component.
+Print Assumptions accept_sst_component_status.
+Print Assumptions accept_stg_component_status.
+Print Assumptions range_se_calls.
+Print Assumptions range_accept_calls.
